@@ -126,6 +126,8 @@ DuringDelete ==
         ELSE Visible[k][t] = model[k][t]
 \* while a write is half-applied (cache written, WAL not yet): the batch is visible, nothing else changed
 DuringWrite == (wj.pc = "cached" /\ dj.pc = "idle") => Visible = ApplyPts(model, wj.pts)
+\* C39: while a write stands before the engine (Close possibly waiting) nothing of it is visible, and Close has not happened
+CloseExcludesWrite == (wj.pc \in {"entered", "closing"}) => Visible = model
 NoResurrection == \A p \in dead : Visible[p[1]][p[2]] # p[3]     \* C03
 \* What the model will be once the half-applied write / delete (if any) are acknowledged. Only issuing a new write or
 \* delete changes it (FinStable, an action property): so a history that stops in the middle of some jobs can be judged
@@ -170,7 +172,12 @@ MaxGen == IF files = <<>> THEN 0 ELSE files[Len(files)].gen
 PartialTomb(f) == \E k \in Keys : /\ \E t \in Times : <<k, t>> \in f.tomb
                                   /\ \E t \in Times : f.data[k][t] # None /\ <<k, t>> \notin f.tomb
 Log(rec) == hist' = Append(hist, rec)
-CanStep == Len(hist) < MaxOps
+\* C39 close race (MC_C39_closerace.cfg overrides CloseRace with CloseRaceOn): a Shard.Close that arrives while a write is
+\* between its field validation and its engine write.  FALSE in every other configuration: the three extra pcs never occur.
+CloseRace   == FALSE
+CloseRaceOn == TRUE
+InCloseRace == wj.pc \in {"entered", "closing", "closewait"}
+CanStep == Len(hist) < MaxOps /\ ~InCloseRace
 
 \* ------------------------------------------------------------------ Init
 Init == /\ hot = Empty /\ snap = Empty /\ sj = IdleS
@@ -342,7 +349,50 @@ Reopen ==
   /\ Log([a |-> "Reopen", exp |-> Exp(model, wj, dj)])
   /\ UNCHANGED <<sj, files, wal, cj, dj, wj, model, written, dead, nw, ns, nc, nd>>
 
+\* ------------------------------------------------------------------ Shard.Close vs a write in flight (C39)
+\* Shard.WritePoints holds Shard.mu.RLock from its first line to its return; Shard.Close takes Shard.mu.Lock.  WriteEnter: the
+\* write has validated its series and fields and stands before Engine.WritePoints (hook shard.write.before_engine): nothing of
+\* it is in the cache or the WAL yet.  CloseTry: Close is called and waits.  WriteFinish: the write runs to its end against the
+\* open engine and is acknowledged; only then (pc closewait) can the pending Close complete (Reopen).
+WriteEnter(b) ==
+  /\ CloseRace /\ Len(hist) < MaxOps /\ WriteAllowed(b) /\ nr < MaxReopens
+  /\ sj.pc = "idle" /\ cj.pc = "idle" /\ dj.pc = "idle"
+  /\ LET pts == Stamp(b) IN
+     /\ wj' = [pc |-> "entered", pts |-> pts]
+     /\ nw' = nw + Len(pts)
+     /\ Log([a |-> "WriteEnter", pts |-> pts, exp |-> Exp(model, IdleW, dj)])
+  /\ UNCHANGED <<hot, snap, sj, files, nextGen, wal, cj, dj, model, written, dead, ns, nc, nd, nr>>
+
+CloseTry ==
+  /\ Len(hist) < MaxOps /\ wj.pc = "entered"
+  /\ wj' = [wj EXCEPT !.pc = "closing"]
+  /\ Log([a |-> "CloseTry", exp |-> Exp(model, IdleW, dj)])
+  /\ UNCHANGED <<hot, snap, sj, files, nextGen, wal, cj, dj, model, written, dead, nw, ns, nc, nd, nr>>
+
+WriteFinish ==
+  /\ Len(hist) < MaxOps /\ wj.pc \in {"entered", "closing"}
+  /\ hot' = ApplyPts(hot, wj.pts)
+  /\ wal' = AppendEntry(wal, WEntry(wj.pts))
+  /\ model' = ApplyPts(model, wj.pts)
+  /\ written' = written \cup {wj.pts[i] : i \in 1..Len(wj.pts)}
+  /\ wj' = IF wj.pc = "closing" THEN [pc |-> "closewait", pts |-> <<>>] ELSE IdleW
+  /\ Log([a |-> "WriteFinish", closing |-> (wj.pc = "closing"), exp |-> Exp(ApplyPts(model, wj.pts), IdleW, dj)])
+  /\ UNCHANGED <<snap, sj, files, nextGen, cj, dj, dead, nw, ns, nc, nd, nr>>
+
+\* the pending Close completes (everything the write did is in the WAL), then Shard.Open
+CloseDoneReopen ==
+  /\ Len(hist) < MaxOps /\ wj.pc = "closewait"
+  /\ hot' = ReplayWal(Empty, wal)
+  /\ snap' = Empty
+  /\ nextGen' = MaxGen + 1
+  /\ nr' = nr + 1
+  /\ wj' = IdleW
+  /\ Log([a |-> "Reopen", exp |-> Exp(model, IdleW, dj)])
+  /\ UNCHANGED <<sj, files, wal, cj, dj, model, written, dead, nw, ns, nc, nd>>
+
 Next == \/ \E b \in Batches : Write(b)
+        \/ \E b \in Batches : WriteEnter(b)
+        \/ CloseTry \/ WriteFinish \/ CloseDoneReopen
         \/ \E b \in Batches : CacheWrite(b)
         \/ WriteAck
         \/ SnapBegin \/ SnapWrite \/ SnapReplace \/ SnapClear \/ SnapWALRemove
@@ -360,7 +410,7 @@ FinStable == [][nw' # nw \/ nd' # nd \/ FinModel' = FinModel]_vars
 TypeOK == /\ sj.pc \in {"idle", "snapped", "written", "replaced", "cleared"}
           /\ cj.pc \in {"idle", "planned", "merged"}
           /\ dj.pc \in {"idle", "called", "begun", "tombstoned", "cached", "logged"}
-          /\ wj.pc \in {"idle", "cached"}
+          /\ wj.pc \in {"idle", "cached", "entered", "closing", "closewait"}
           /\ Len(wal) >= 1
           /\ (sj.pc = "idle" => snap = Empty)
 FilesSorted == \A i \in 1..(Len(files) - 1) :
